@@ -283,6 +283,10 @@ func checkCase(c Case, o *pbt.Rec) pbt.Verdict {
 		o.Label("settle:error-message-of-failed-subscription-late")
 	}
 	res := accept(c, out.hist, true)
+	if res.inconclusive != "" {
+		o.Discard("race-window")
+		return pbt.OK
+	}
 	return verdictOf(c, out, res, o)
 }
 
